@@ -507,4 +507,190 @@ theorem schemaApply_conforms (env : Env) (p : Bool) (fields : List Field)
     | none => have := g2 kv hkv; simp [hf] at this
     | some f => exact ⟨f, rfl, g3 kv hkv f hf (getField_mem env fields kv.1 f hf)⟩
 
+
+/-! ### The converse: a conforming dict is a fixed point of `Schema.apply` -/
+
+theorem setKey_same (kvs : List (String × Val)) (k : String) (v : Val) (h : lookup kvs k = some v) :
+    setKey kvs k v = kvs := by
+  induction kvs with
+  | nil => simp [lookup] at h
+  | cons p ps ih =>
+    obtain ⟨l, x⟩ := p
+    simp only [setKey]
+    by_cases hlk : (l == k) = true
+    · simp only [lookup, List.find?_cons, hlk, Option.map_some, Option.some.injEq] at h
+      rw [if_pos hlk, h]
+    · rw [if_neg hlk]
+      simp only [lookup, List.find?_cons, hlk] at h
+      rw [ih h]
+
+theorem setKeys_same (kvs : List (String × Val)) (ps : List (String × Val))
+    (h : ∀ kv ∈ ps, lookup kvs kv.1 = some kv.2) : setKeys kvs ps = kvs := by
+  induction ps with
+  | nil => rfl
+  | cons q qs ih =>
+    obtain ⟨k, v⟩ := q
+    simp only [setKeys]
+    rw [setKey_same kvs k v (h (k, v) List.mem_cons_self)]
+    exact ih (fun kv hkv => h kv (List.mem_cons_of_mem _ hkv))
+
+theorem lookup_mem (kvs : List (String × Val)) (k : String) (v : Val) (h : lookup kvs k = some v) :
+    (k, v) ∈ kvs := by
+  unfold lookup at h
+  cases hf : kvs.find? (fun kv => kv.1 == k) with
+  | none => simp [hf] at h
+  | some kv =>
+    simp only [hf, Option.map_some, Option.some.injEq] at h
+    have h1 := List.mem_of_find?_eq_some hf
+    have h2 := List.find?_some hf
+    simp only [beq_iff_eq] at h2
+    obtain ⟨a, b⟩ := kv
+    simp only at h h2
+    subst h; subst h2
+    exact h1
+
+theorem lookup_of_mem_keys (kvs : List (String × Val)) (k : String) (h : k ∈ kvs.map (·.1)) :
+    ∃ v, lookup kvs k = some v := by
+  have : (lookup kvs k).isSome = true := by
+    unfold lookup
+    simp only [Option.isSome_map, List.find?_isSome]
+    simp only [List.mem_map] at h
+    obtain ⟨kv, hkv, he⟩ := h
+    exact ⟨kv, hkv, by simpa using he⟩
+  cases hl : lookup kvs k with
+  | none => simp [hl] at this
+  | some v => exact ⟨v, rfl⟩
+
+theorem mapM_map {α β : Type} (g : α → R β) (h : α → β) (xs : List α) (hg : ∀ x ∈ xs, g x = .ok (h x)) :
+    xs.mapM g = .ok (xs.map h) := by
+  induction xs with
+  | nil => rfl
+  | cons x xs ih =>
+    rw [List.mapM_cons, hg x List.mem_cons_self, ih (fun y hy => hg y (List.mem_cons_of_mem _ hy))]
+    rfl
+
+theorem zip_map_mem {α β : Type} (h : α → β) (xs : List α) (q : α × β) (hq : q ∈ xs.zip (xs.map h)) :
+    q.1 ∈ xs ∧ q.2 = h q.1 := by
+  induction xs with
+  | nil => simp at hq
+  | cons x xs ih =>
+    simp only [List.map_cons, List.zip_cons_cons, List.mem_cons] at hq
+    rcases hq with hq | hq
+    · subst hq; simp
+    · obtain ⟨h1, h2⟩ := ih hq
+      exact ⟨List.mem_cons_of_mem _ h1, h2⟩
+
+theorem mem_constKeys_mid (pre rest : List Field) (k : String) (s : Spec) :
+    k ∈ constKeys (pre ++ Field.mk (.const k) s :: rest) := by
+  induction pre with
+  | nil => simp [constKeys]
+  | cons g gs ih => obtain ⟨gk, gv⟩ := g; cases gk <;> simp [constKeys, ih]
+
+/-- A stored `MISSING_VALUE` (partial mode) sits only where applying the field default also gives
+`MISSING_VALUE` (so that re-applying the schema does not fill it in). -/
+def NoStaleMissing (env : Env) (p : Bool) (d : TDict) : Prop :=
+  ∀ kv ∈ d.kvs, kv.2.isMissing = true → ∀ f, getField env d.fields kv.1 = some f →
+    apply env f.value p f.value.flags.default = .ok .missing
+
+theorem applyFields_fixed (env : Env) (p : Bool) (all : List Field) (kvs : List (String × Val))
+    (hd : distinctKeys (fieldKeySpecs all) = true)
+    (hc : ConformsD env p ⟨all, kvs⟩) (hs : NoStaleMissing env p ⟨all, kvs⟩) :
+    ∀ (fs pre : List Field), all = pre ++ fs →
+      applyFields env fs (constKeys all) (nonConstKeySpecs pre) p kvs = .ok kvs := by
+  intro fs
+  induction fs with
+  | nil => intro pre _; simp [applyFields]
+  | cons f rest ih =>
+    intro pre hall
+    obtain ⟨ks, spec⟩ := f
+    rw [applyFields]
+    simp only [bind, Except.bind]
+    -- the keys handled by this field exist and are owned by it
+    have hkeys : ∀ k' ∈ fieldKeys env (constKeys all) (nonConstKeySpecs pre) ks kvs,
+        k' ∈ kvs.map (·.1) ∧ getField env all k' = some (Field.mk ks spec) := by
+      intro k' hk'
+      cases ks with
+      | const k =>
+        simp only [fieldKeys, List.mem_singleton] at hk'
+        subst hk'
+        refine ⟨?_, by rw [hall]; exact owner_const env pre rest k' spec (hall ▸ hd)⟩
+        have : k' ∈ constKeys all := by rw [hall]; exact mem_constKeys_mid pre rest k' spec
+        have h2 := hc.2 k' this
+        cases hl : lookup kvs k' with
+        | none => simp [hl] at h2
+        | some v => exact mem_keys_of_mem (lookup_mem kvs k' v hl)
+      | strKey r =>
+        simp only [fieldKeys, List.mem_filter, Bool.and_eq_true, Bool.not_eq_true'] at hk'
+        obtain ⟨hin, ⟨hcn, hmt⟩, he⟩ := hk'
+        refine ⟨hin, ?_⟩
+        rw [hall]
+        refine owner_dyn env pre rest _ (by simp [Field.key, KeySpec.isConst]) k' ?_ hmt he
+        rw [← hall]; simpa using hcn
+    have hval : ∀ k' ∈ fieldKeys env (constKeys all) (nonConstKeySpecs pre) ks kvs,
+        apply env spec p (valueOrDefault kvs k' spec.flags.default) = .ok ((lookup kvs k').getD .missing) ∧
+        lookup kvs k' = some ((lookup kvs k').getD .missing) := by
+      intro k' hk'
+      obtain ⟨hin, hown⟩ := hkeys k' hk'
+      obtain ⟨v, hv⟩ := lookup_of_mem_keys kvs k' hin
+      have hmem := lookup_mem kvs k' v hv
+      obtain ⟨f', hf', hfix⟩ := hc.1 (k', v) hmem
+      simp only at hf' hfix
+      rw [hown] at hf'
+      injection hf' with hf'
+      subst hf'
+      simp only [hv, Option.getD_some, and_true]
+      unfold valueOrDefault
+      simp only [hv]
+      by_cases hm : v.isMissing = true
+      · simp only [hm, if_true]
+        have := hs (k', v) hmem hm _ hown
+        simp only [Field.value] at this
+        rw [this]
+        cases v <;> simp [Val.isMissing] at hm
+        rfl
+      · simp only [hm]
+        exact hfix
+    rw [mapM_map _ (fun k' => (lookup kvs k').getD .missing) _ (fun k' hk' => (hval k' hk').1)]
+    simp only []
+    have hsame : setKeys kvs ((fieldKeys env (constKeys all) (nonConstKeySpecs pre) ks kvs).zip
+        ((fieldKeys env (constKeys all) (nonConstKeySpecs pre) ks kvs).map (fun k' => (lookup kvs k').getD .missing))) = kvs := by
+      apply setKeys_same
+      intro kv hkv
+      obtain ⟨h1, h2⟩ := zip_map_mem _ _ kv hkv
+      rw [h2]
+      exact (hval kv.1 h1).2
+    rw [hsame]
+    have hpre' : nonConstKeySpecs (pre ++ [Field.mk ks spec]) =
+        (if ks.isConst = true then nonConstKeySpecs pre else nonConstKeySpecs pre ++ [ks]) := by
+      rw [nonConst_append_single]
+      simp only [Field.key]
+      cases ks <;> simp [KeySpec.isConst]
+    rw [← hpre']
+    exact ih (pre ++ [Field.mk ks spec]) (by rw [hall]; simp)
+
+/-- A conforming dict (distinct schema keys, no stale MISSING) is a fixed point of `Schema.apply`. -/
+theorem schemaApply_fixed (env : Env) (p : Bool) (fields : List Field) (kvs : List (String × Val))
+    (hd : distinctKeys (fieldKeySpecs fields) = true)
+    (hc : ConformsD env p ⟨fields, kvs⟩) (hs : NoStaleMissing env p ⟨fields, kvs⟩) :
+    schemaApply env fields p kvs = .ok kvs := by
+  unfold schemaApply
+  have hu : unmatchedKeys env fields kvs = [] := by
+    unfold unmatchedKeys
+    rw [List.filter_eq_nil_iff]
+    intro k hk
+    simp only [List.mem_map] at hk
+    obtain ⟨kv, hkv, he⟩ := hk
+    obtain ⟨f, hf, _⟩ := hc.1 kv hkv
+    simp only at hf
+    rw [he] at hf
+    simp only [Bool.and_eq_true, Bool.not_eq_true', not_and, Bool.not_eq_false]
+    intro hnc
+    have hnc' : k ∉ constKeys fields := by simpa using hnc
+    rw [getField_eq, find_const_none _ _ hnc'] at hf
+    simp only [] at hf
+    rw [any_nonconst, List.any_eq_true]
+    exact ⟨f, List.mem_of_find?_eq_some hf, List.find?_some hf⟩
+  simp only [hu, List.isEmpty_nil, Bool.not_true, Bool.false_eq_true, if_false]
+  exact applyFields_fixed env p fields kvs hd hc hs fields [] (by simp)
+
 end Pg.C03
